@@ -52,9 +52,6 @@ View == <<m, pc, prevC, sn, sf, pre, wfills, fstat, wlo, whi, wpx>>
 Init == /\ m = 0 /\ pc = "feed" /\ prevC = 0 /\ sn = Side0 /\ sf = Side0 /\ pre = "ok" /\ wfills = 0 /\ fstat = "run"
         /\ wlo = 0 /\ whi = 0 /\ wpx = {} /\ hist = <<>>
 
-RestingPx(os) == {os[j].p : j \in {i \in DOMAIN os : os[i].typ # "MARKET"}}
-FilledPx(lg)  == {lg[j][3] : j \in {i \in DOMAIN lg : lg[i][2] # "MARKET"}}
-RestingFills(lg) == Len(SelectSeq(lg, LAMBDA f : f[2] # "MARKET"))
 \* next Chunk minutes (fewer at a ragged end); both simulators consume them
 ChunkLen == Min2(Chunk, NMin - m)
 Continuous(raw, pc0) == \A k \in 1..Len(raw) : raw[k].o = (IF k = 1 THEN (IF pc0 = 0 THEN raw[1].o ELSE pc0) ELSE raw[k - 1].c)
@@ -64,11 +61,11 @@ Feed ==
        /\ Gaps \/ Continuous(raw, prevC)
        /\ LET n2  == MinutesN(sn, raw, prevC, 1, m)
               f2  == ChunkF(sf, raw, prevC, m)
-              wf  == wfills + RestingFills(n2.log) - RestingFills(sn.log)
+              wf  == wfills + RestingFills(NewFills(sn.log, n2.log))
               \* the window's price range so far (from the close before it) and every resting price alive in it
               lo  == Min2(IF wlo = 0 THEN (IF prevC = 0 THEN raw[1].o ELSE prevC) ELSE wlo, MinL(raw))
               hi  == Max2(IF whi = 0 THEN (IF prevC = 0 THEN raw[1].o ELSE prevC) ELSE whi, MaxH(raw))
-              px  == wpx \cup RestingPx(sn.ords) \cup RestingPx(n2.ords) \cup FilledPx(n2.log)
+              px  == wpx \cup RestingPx(sn.ords) \cup RestingPx(n2.ords) \cup FilledPx(NewFills(sn.log, n2.log))
           IN /\ sn' = n2
              /\ wfills' = wf /\ wlo' = lo /\ whi' = hi /\ wpx' = px
              /\ pre' = IF wf > 1 THEN "two-fills"
